@@ -5,9 +5,12 @@ package main
 // archive is extracted again (from the file or from stdin); the trees must be equal.
 
 import (
+	"sync/atomic"
+
 	"bytes"
 	"encoding/json"
 	"fmt"
+	"github.com/ipfs/go-cid"
 	"hash/fnv"
 	"os"
 	"os/exec"
@@ -82,6 +85,38 @@ func realName(n string) string {
 	return n
 }
 
+var shardedRuns atomic.Int64
+
+// unixfsType returns the UnixFS Data.Type of a dag-pb node, -1 if it has none.
+func unixfsType(node []byte) int {
+	for len(node) > 0 {
+		tag, n := getUvarint(node)
+		if n <= 0 {
+			return -1
+		}
+		node = node[n:]
+		if tag&7 != 2 {
+			return -1
+		}
+		l, n := getUvarint(node)
+		if n <= 0 || uint64(len(node)-n) < l {
+			return -1
+		}
+		body := node[n : n+int(l)]
+		node = node[n+int(l):]
+		if tag>>3 == 1 { // PBNode.Data
+			if len(body) >= 2 && body[0] == 0x08 {
+				t, _ := getUvarint(body[1:])
+				return int(t)
+			}
+			return -1
+		}
+	}
+	return -1
+}
+
+const manyDirEntries = 1300 // 1300 x (195-byte name + 36-byte CID) = 300 KB > 262144
+
 func materialise(dir string, es []trEntry) error {
 	for _, e := range es {
 		p := filepath.Join(dir, realName(e.N))
@@ -100,6 +135,26 @@ func materialise(dir string, es []trEntry) error {
 			}
 			if err := materialise(p, e.Ch); err != nil {
 				return err
+			}
+		case "manydir":
+			// names + CIDs of the entries exceed go-unixfsnode's 256 KiB threshold: `car create` builds a HAMT
+			if err := os.Mkdir(p, 0o755); err != nil {
+				return err
+			}
+			for i := 0; i < manyDirEntries; i++ {
+				q := filepath.Join(p, fmt.Sprintf("%04d-%s", i, strings.Repeat("n", 190)))
+				var err error
+				switch {
+				case i%97 == 5:
+					err = os.Symlink(fmt.Sprintf("../target-%d", i), q)
+				case i%3 == 0:
+					err = os.WriteFile(q, []byte(fmt.Sprintf("entry %d\n", i)), 0o644)
+				default:
+					err = os.WriteFile(q, nil, 0o644)
+				}
+				if err != nil {
+					return err
+				}
 			}
 		}
 	}
@@ -174,6 +229,22 @@ func runTreeCase(carBin string, c *treeCase, base string) (string, string) {
 	if err != nil {
 		return "created-archive-malformed", err.Error()
 	}
+	hasMany := false
+	for _, e := range c.Tree {
+		hasMany = hasMany || e.K == "manydir"
+	}
+	if hasMany {
+		sharded := false
+		for _, sec := range v1.Secs {
+			if sec.Cid.Prefix().Codec == cid.DagProtobuf && unixfsType(sec.Data) == 5 {
+				sharded = true
+			}
+		}
+		if !sharded {
+			return "harness", "the many-entry directory was not packed as a HAMT-sharded directory: the case does not exercise what it is meant to"
+		}
+		shardedRuns.Add(1)
+	}
 	printed := strings.Fields(string(rootOut))
 	if len(v1.Roots) != 1 || len(printed) != 1 || v1.Roots[0].String() != printed[0] {
 		return "root-mismatch", fmt.Sprintf("header roots %v, car root printed %v", v1.Roots, printed)
@@ -220,6 +291,13 @@ func runTreeCase(carBin string, c *treeCase, base string) (string, string) {
 			want[rel] = "dir"
 		} else {
 			want[rel] = srcList[srel]
+		}
+		if e.K == "manydir" { // opaque in the specification: every entry of the source directory
+			for sp, v := range srcList {
+				if strings.HasPrefix(sp, srel+string(os.PathSeparator)) {
+					want[filepath.Join(rel, strings.TrimPrefix(sp, srel+string(os.PathSeparator)))] = v
+				}
+			}
 		}
 	}
 	var diff []string
@@ -305,6 +383,7 @@ func runTreeReplay(args []string) int {
 	if err != nil {
 		rep.inconclusive(err.Error())
 	}
+	rep.count("hamt_sharded_archives", int(shardedRuns.Load()))
 	rep.write(out)
 	if len(rep.Inconcl) > 0 {
 		return 2
